@@ -549,7 +549,42 @@ fn run_case(line: &str) -> String {
     let mut run = Run { prefix, cl, srv, tx, rx, started: vec![], done: HashMap::new(), ids: HashMap::new(), tasks: HashMap::new(),
         faulted: false, window: false, stalled: false, next_fence: 0, sub: None, nrecv: 0, subq: vec![], sub_eos: false, notes: vec![], resid: vec![], frames_sent: 0, got_base: 0 };
     if want_sub { if let Cl::Ws(w) = &run.cl { match w.subscribe_notifies() { Ok(r) => run.sub = Some(r), Err(_) => run.note("subscribe-failed") } } }
-    let res = guard(std::panic::AssertUnwindSafe(|| { for ev in &script { run.event(ev); } }));
+    // `ham=1` (async client): from the moment call 0 is in flight until the first residue probe, two
+    // tasks keep forwarding a message with call 0's id - each is refused at once as a duplicate
+    // without touching the wire, and each refusal takes the pending-map lock: the guards of the
+    // calls that expire or are cancelled meanwhile are dropped under contention
+    let ham = f.get("ham").map(|s| s == "1").unwrap_or(false);
+    let ham_stop = std::sync::Arc::new(std::sync::atomic::AtomicBool::new(false));
+    let mut ham_tasks: Vec<tokio::task::JoinHandle<u64>> = vec![];
+    let res = guard(std::panic::AssertUnwindSafe(|| {
+        for (i, ev) in script.iter().enumerate() {
+            if ham && ev.starts_with("G:") && !ham_stop.load(std::sync::atomic::Ordering::SeqCst) {
+                ham_stop.store(true, std::sync::atomic::Ordering::SeqCst);
+                for h in ham_tasks.drain(..) { match rt().block_on(async { tokio::time::timeout(WATCHDOG, h).await }) { Ok(Ok(n)) if n > 0 => {} _ => run.note("hammer-idle") } }
+            }
+            run.event(ev);
+            if ham && i == 0 {
+                if let (Cl::A(cl), Some(id)) = (run.cl.clone(), run.ids.get(&0).copied()) {
+                    for _ in 0..2 {
+                        let (cl, stop) = (cl.clone(), ham_stop.clone());
+                        ham_tasks.push(rt().spawn(async move {
+                            let msg = repe::Message::builder().id(id).query_str("/ham").query_format_code(1).body_json(&json!({})).unwrap().build();
+                            let mut n = 0u64;
+                            while !stop.load(std::sync::atomic::Ordering::SeqCst) {
+                                match cl.forward_message_with_timeout(&msg, Duration::from_millis(1)).await {
+                                    Err(RepeError::Io(e)) if e.kind() == std::io::ErrorKind::AlreadyExists => n += 1,
+                                    _ => break,   // call 0 is no longer pending: stop before anything reaches the wire twice
+                                }
+                                if n % 64 == 0 { tokio::task::yield_now().await; }
+                            }
+                            n
+                        }));
+                    }
+                } else { run.note("hammer-not-started"); }
+            }
+        }
+    }));
+    ham_stop.store(true, std::sync::atomic::Ordering::SeqCst);
     if res.is_err() { release(); return "crash=panic".into(); }
     // final collection: calls still open are `hang` after a fault, `pending` otherwise
     if run.window { release(); }
@@ -764,6 +799,23 @@ fn gen_cases(seed: u64, thorough: bool) -> Vec<String> {
                 cases.push(g.line());
             }
         }
+    }
+
+    // C'. (async client) the same lives under contention on the pending map (`ham=1`): call 0 stays in
+    //     flight, 12 (quick) / 40 (thorough) further calls expire or are cancelled while two tasks
+    //     keep the pending-map lock busy, then every one of them is probed for residue
+    for rep_i in 0..(if thorough { 4 } else { 2 }) {
+        let mut g = Gen::new("atcp", false);
+        let c0 = g.start("S").unwrap();
+        let mut fin: Vec<usize> = Vec::new();
+        for j in 0..(if thorough { 40 } else { 12 }) {
+            if (j + rep_i) % 3 == 2 { let c = g.start("S").unwrap(); g.cancel("C", c); fin.push(c); }
+            else { let c = g.start(if j % 2 == 0 { "XZ" } else { "X" }).unwrap(); fin.push(c); }
+        }
+        for c in &fin { g.probe(*c); }
+        g.respond(c0);
+        let c = g.start("S").unwrap(); g.respond(c);
+        cases.push(format!("{} ham=1", g.line()));
     }
 
     // D. the stalled writer (design D8): call B blocked inside the write of an 8 MiB request
